@@ -200,6 +200,18 @@ func (ev *Eval) loadCell(obj ssa.Value, path []pathElem, at ssa.Instruction) *Te
 	}
 	cands := append(exact, prefix...)
 	if len(cands) == 0 {
+		// a constant index into a container filled by one counted loop: instantiate the loop's element at that index
+		if t := ev.instantiateLoopStore(obj, path); t != nil {
+			return t
+		}
+		// a variable index into a container assembled from constant-index stores: index the assembled contents
+		if n := len(path); n > 0 && path[n-1].field == "" {
+			if _, isC := IntConst(ev.pathTerm(&path[n-1])); !isC && ev.hasStoreUnder(obj, path[:n-1]) {
+				if cont := ev.assemble(obj, path[:n-1], at); cont != nil && cont.K == KSeq {
+					return Idx(cont, ev.pathTerm(&path[n-1]))
+				}
+			}
+		}
 		// a deeper store exists? then the aggregate is assembled piecewise: build a record / sequence
 		if a, ok := obj.(*ssa.Alloc); ok && escapes(a) && !ev.hasStoreUnder(obj, path) {
 			// the cell may have been written through the escaped pointer: its content is unknown, keep its identity
@@ -281,7 +293,30 @@ func (ev *Eval) assemble(obj ssa.Value, path []pathElem, at ssa.Instruction) *Te
 		return rec
 	case *types.Array:
 		if alloc, ok := obj.(*ssa.Alloc); ok && len(path) == 0 {
-			return ev.arrayContents(alloc, u.Len())
+			flat := true
+			for _, s := range ev.index().byObj[obj] {
+				if len(s.path) > 1 {
+					flat = false
+				}
+			}
+			if flat {
+				return ev.arrayContents(alloc, u.Len())
+			}
+		}
+		// nested array inside an aggregate: assemble element-wise from constant-index stores
+		if u.Len() <= 64 {
+			parts := make([]*Term, u.Len())
+			for i := int64(0); i < u.Len(); i++ {
+				sub := append(append([]pathElem{}, path...), pathElem{idxT: ConstInt(i)})
+				if ev.hasStoreUnder(obj, sub) {
+					parts[i] = Elem(ev.loadCell(obj, sub, at))
+				} else if t := ev.instantiateLoopStore(obj, sub); t != nil {
+					parts[i] = Elem(t)
+				} else {
+					parts[i] = Elem(&Term{K: KZero})
+				}
+			}
+			return &Term{K: KSeq, Args: parts}
 		}
 	}
 	return nil
@@ -545,4 +580,52 @@ func (ev *Eval) AllocType(t *Term) types.Type {
 		return a.Type().(*types.Pointer).Elem()
 	}
 	return nil
+}
+
+// instantiateLoopStore: path = […, k] with k constant, and the only stores to that level are `c[i] = f(i)` for an induction
+// variable i running 0..n-1 (k < n when n is constant): the cell holds f(k).
+func (ev *Eval) instantiateLoopStore(obj ssa.Value, path []pathElem) *Term {
+	if len(path) == 0 || path[len(path)-1].field != "" {
+		return nil
+	}
+	last := path[len(path)-1]
+	k, ok := IntConst(ev.pathTerm(&last))
+	if !ok {
+		return nil
+	}
+	var hit *storeRec
+	n := 0
+	for _, s := range ev.index().byObj[obj] {
+		if len(s.path) != len(path) || !ev.samePath(s.path[:len(path)-1], path[:len(path)-1]) {
+			continue
+		}
+		n++
+		hit = s
+	}
+	if n != 1 {
+		return nil
+	}
+	it := ev.pathTerm(&hit.path[len(path)-1])
+	if it == nil || it.K != KIndVar {
+		return nil
+	}
+	rng, ok := it.Loop.Range(it)
+	if !ok {
+		return nil
+	}
+	bound, ok := rng.CoversZeroTo()
+	if !ok {
+		return nil
+	}
+	if b, isC := IntConst(bound); isC && (k < 0 || k >= b) {
+		return nil
+	}
+	v := ev.Resolve(ev.op(hit.val, hit.instr))
+	loop := it.Loop
+	return Subst(v, func(x *Term) *Term {
+		if x.K == KIndVar && x.Loop == loop {
+			return ConstInt(k)
+		}
+		return nil
+	})
 }
